@@ -28,6 +28,13 @@ def write(directory, seed, delta=None, start=0):
     for k, (i, j) in enumerate([(1, 1), (3, 3)][:rng.randint(1, 2)]):
         la, lo = cell(i, j)
         bases.append((f'b{k}', la, lo, f'bs{k}' if rng.random() < 0.6 else '', rng.randint(1, 3)))
+    # some stations also sell petrol: a second row for the same station id (the loader appends the plug type to the station built
+    # from the first row).  Own stream.
+    rng_g = random.Random(f'gas-pump|{seed}')
+    for sid_ in sorted(set(s[0] for s in stations)):
+        if rng_g.random() < 0.6:
+            la_, lo_ = next((s[1], s[2]) for s in stations if s[0] == sid_)
+            stations.append((sid_, la_, lo_, rng_g.randint(1, 2), 'GAS_PUMP'))
     for (bid, la, lo, sid, stalls) in bases:
         if sid:
             stations.append((sid, la, lo, 1, 'LEVEL_2'))
